@@ -42,6 +42,14 @@ StackRows == {[outer |-> o, inner |-> i, sender |-> s, extra |-> x, verdict |-> 
 ExtraRows == {[allow |-> a, sender |-> s, extra |-> x, verdict |-> AllowListVerdict(a, s)] :
                 a \in {{}, {1}, {1, 2}}, s \in {1, 2, Absent, Stranger}, x \in Extras}
 ASSUME \A r \in StackRows : (r.verdict = "pass") <=> (r.sender \in r.outer /\ r.sender \in r.inner)
+(* Allow-lists of every size up to 20, handed over in ascending, descending and scrambled     *)
+(* order: the list is a set, its size and order play no part.  Identities are 1..n; the       *)
+(* stranger is n + 1.                                                                          *)
+SizeRows == {[n |-> n, order |-> o, sender |-> s, verdict |-> AllowListVerdict(1..n, s)] :
+               n \in 0..20, o \in {"asc", "desc", "scrambled"}, s \in 0..21}
+               \* senders beyond n are strangers; 0 is "no sender"
+ASSUME \A r \in SizeRows : (r.verdict = "pass") <=> (r.sender >= 1 /\ r.sender <= r.n)
+ASSUME PrintT(<<"TABLE", "auth_sizes", ToJson(SizeRows)>>)
 ASSUME PrintT(<<"TABLE", "auth_stack", ToJson(StackRows)>>)
 ASSUME PrintT(<<"TABLE", "auth_extra", ToJson(ExtraRows)>>)
 
